@@ -38,6 +38,28 @@ def run_mutant(pid, relpath, old, new, tier="quick", count=1):
         source.set_override(path, None)
 
 
+def self_check(pid, tier="quick"):
+    """Vacuity guard of the thorough tier: every built-in mutant of the real source text (applied in memory) must be refuted by an
+    obligation that holds on the unmutated text.  Returns {"caught": [...], "missed": [...], "skipped": [...]}."""
+    import importlib
+    _setup_paths()
+    mod = importlib.import_module(f"contracts.{pid.lower()}")
+    muts = getattr(mod, "MUTANTS", [])
+    out = {"caught": [], "missed": [], "skipped": []}
+    if not muts:
+        return out
+    _, _, base, _ = run_property(pid, tier, 0, None)
+    baseline = {o["id"] for r in base for o in r["obligations"] if o["status"] != "discharged"}
+    for name, rel, old, new in muts:
+        r = run_mutant(pid, rel, old, new, tier=tier)
+        if r.get("error"):
+            out["skipped"].append(f"{name}: {r['error']}")          # the text this mutant edits is no longer there
+            continue
+        fresh = [b for b in r["bad"] if b[2] not in baseline]
+        (out["caught"] if fresh else out["missed"]).append(name if not fresh else f"{name} -> {fresh[0][2]}")
+    return out
+
+
 def main():
     import importlib
     pid = sys.argv[1]
